@@ -48,4 +48,5 @@ def run(ctx):
             if kind in _zinc.kinds_for(version):
                 c02._kind(ctx, entries, kind, version, rule='C08.D2', rule3='C08.D2', rule5='C08.D2')
     J.verbatim_payload(ctx, 'C08.D2', entries, fn)
+    J.parse_scalar_entry(ctx, 'C08.D2')
     c06._shape(ctx)
